@@ -5,7 +5,7 @@
    grant of that privilege matches.  PARTIAL: token validation (jsonwebtoken) is trusted; "no
    request is served before a valid token" and the per-request table are validated on a live
    session by the session engine, not proved here. *)
-From WB Require Import Base.Str Model.Key Model.Match Model.Codec Model.Auth Proofs.AuthFacts.
+From WB Require Import Base.Str Base.Json Model.Key Model.Match Model.Core Model.Codec Model.Auth Model.Session Proofs.AuthFacts Proofs.SessionFacts.
 
 Theorem C15_sound_doc :
   forall g r k, wf_pat g = true -> pm g r = true -> doc_match r k = true -> doc_match g k = true.
@@ -43,6 +43,25 @@ Theorem C15_table_total :
     end.
 Proof. intros m H. destruct m; try exact I; discriminate. Qed.
 Print Assumptions C15_table_total.
+
+(* session level: no request is served before a token was presented (the session ends, the core is
+   untouched), and a request outside the grant is answered Unauthorized and has no effect *)
+Theorem C15_no_service_before_token :
+  forall w sn m s p pat, lookup_n sn (w_sess w) = Some s -> is_request m = true ->
+    ((N.eqb (ss_proto s) 0 && v1_only m) || (match m with MTransform _ _ _ => true | _ => false end) = false)%bool ->
+    w_auth_required w = true -> ss_claims s = None -> auth_requirement m = Some (p, pat) ->
+    handle w sn m = (w, [], Close).
+Proof. exact no_service_before_token. Qed.
+Print Assumptions C15_no_service_before_token.
+
+Theorem C15_denied_is_noop :
+  forall w sn m s cl p pat, lookup_n sn (w_sess w) = Some s -> is_request m = true ->
+    ((N.eqb (ss_proto s) 0 && v1_only m) || (match m with MTransform _ _ _ => true | _ => false end) = false)%bool ->
+    w_auth_required w = true -> ss_claims s = Some cl -> auth_requirement m = Some (p, pat) ->
+    authorize cl p pat = false ->
+    handle w sn m = (w, [(sn, SErr (tid_of m) E_Unauthorized [])], Continue).
+Proof. exact denied_is_noop. Qed.
+Print Assumptions C15_denied_is_noop.
 
 Example C15_nonvacuous :
   pattern_matches [97;47;35] [97;47;63;47;98] = true /\ pattern_matches [97;47;63] [97;47;35] = false /\
